@@ -14,7 +14,7 @@ MANIFEST = {
             "split_query_eq_spec, decode_once, dot_segments_never_emitted) and so do the buffer writers coap_split_path / "
             "coap_split_query for every buffer of at least length + 2*segments + 1 bytes (split_path_buf_eq_spec, "
             "split_query_buf_eq_spec, split_buf_eq_spec_3n, split_buf_documented_bound), which for no buffer size write past "
-            "it (split_buf_never_overflows, split_buf_truncation); coap_get_uri_path / coap_get_query compute RFC 7252 §6.5's "
+            "it and only ever omit segments (split_buf_never_overflows, split_buf_omits_only, split_buf_truncation); coap_get_uri_path / coap_get_query compute RFC 7252 §6.5's "
             "strings with escape tables regenerated from the code and proved equal to the RFC's character classes "
             "(get_uri_path_eq_spec, get_query_eq_spec, escape_tables_match_rfc); those strings are injective modulo the single "
             "empty segment (uri_path_injective, query_injective) and feed back to the same options, also end to end from a URI "
@@ -26,7 +26,8 @@ MANIFEST = {
             "transcription M (checked against the compiled code on the cases run only). Seven defects found on the way are fixed "
             "in libcoap (KNOWN_FINDINGS.txt); M is transcribed from the fixed code. Outside S (SPEC DECISIONS): malformed escapes "
             "handed directly to the component splitters (D16a) or inside a host (D4), output buffers below the minimum (D16b: "
-            "only no overflow + the exact fold are proved), authorities naming a Unix socket (D16f); Uri-Host is specified "
+            "proved there: no overflow, segments are only omitted, the exact fold), authorities naming a Unix socket (D16f); "
+            "Uri-Host is specified "
             "decoded-then-lower-cased (D16g). The header's documented buffer bound (length + 2 per segment) is one byte short "
             "for a segment of >= 269 bytes (decided witness in Props/C16.lean; not a CoAP-legal option length).",
     "design_ref": "DESIGN.md §4 C16, design/C16.md",
@@ -38,7 +39,7 @@ REQUIRED_THEOREMS = ["escape_tables_match_rfc", "get_uri_path_eq_spec", "get_que
                      "split_query_eq_spec", "decode_once", "dot_segments_never_emitted", "no_overread",
                      "split_uri_eq_spec", "split_uri_rejects_malformed", "split_uri_eq_spec_instances",
                      "split_path_buf_eq_spec", "split_query_buf_eq_spec", "split_buf_eq_spec_3n",
-                     "split_buf_documented_bound", "split_buf_never_overflows", "split_buf_truncation",
+                     "split_buf_documented_bound", "split_buf_never_overflows", "split_buf_truncation", "split_buf_omits_only",
                      "uri_into_optlist_eq_spec", "uri_to_options_eq_spec", "uri_options_defined",
                      "path_roundtrip", "query_roundtrip", "uri_options_roundtrip"]
 RULE = ("byte strings over an alphabet biased to / % & ? # . [ ] : and hex digits (plus blind bytes) as path / query / URI input, each "
